@@ -9,6 +9,10 @@ import BtcVerif.Basic.Bytes
 
 namespace BtcVerif.Spec
 
+/- The work limits are Bitcoin Core's `consensus.powLimit` values (chainparams.cpp): main/test
+   00000000ffff…ff, signet 00000377ae00…00 (= the target of the signet genesis nBits 0x1e0377ae),
+   regtest 7fff…ff — not copied from the library. -/
+
 structure ChainParams where
   name : String
   messageStart : List Nat        -- 4 magic bytes
@@ -33,7 +37,7 @@ def testnet : ChainParams :=
 def signet : ChainParams :=
   { name := "signet", messageStart := [0x0a, 0x03, 0xcf, 0x40],
     pubkeyAddr := 111, scriptAddr := 196, secretKey := 239, bech32Hrp := "tb",
-    maxMoney := 21000000 * 100000000, powLimit := (2 ^ 256 - 1) / 2 ^ 32 }
+    maxMoney := 21000000 * 100000000, powLimit := 0x00000377ae000000000000000000000000000000000000000000000000000000 }
 
 def regtest : ChainParams :=
   { name := "regtest", messageStart := [0xfa, 0xbf, 0xb5, 0xda],
